@@ -46,12 +46,31 @@ func runReplay(c *Ctx, path string) {
 	c.run(rf.Runner, in)
 }
 
+// genOps: model op -> the driver op that evaluates the function body REGENERATED from the Go source (Gen/Funcs.lean).
+var genOps = map[string]string{"fold": "gen.ToRFC1459", "validnick": "gen.IsValidNick", "validuser": "gen.IsValidUser", "validchan": "gen.IsValidChannel",
+	"glob": "gen.Glob", "validtag": "gen.validTag", "validtagvalue": "gen.validTagValue", "tagget": "gen.Tags.Get", "ctcpenc": "gen.EncodeCTCPRaw",
+	"ctcpdec": "gen.DecodeCTCP", "parse": "gen.ParseEvent", "parsesource": "gen.ParseSource", "parsetags": "gen.ParseTags"}
+
+// genCheck compares the real function with its regenerated translation on the same input: this validates the translator
+// and its run-time model (the tie theorems then carry the model's properties over to what the code says now).
+func (c *Ctx) genCheck(modelOp string, hin map[string]string, impl string, args ...string) {
+	op, ok := genOps[modelOp]
+	if !ok {
+		return
+	}
+	if g := c.L.Call(op, args...); g != impl {
+		c.R.Mismatch("translated."+op[4:], hin, impl, g)
+	}
+	c.R.Dist["translated."+op[4:]]++
+}
+
 // compare is the common shape: impl output vs model op and vs spec op.
 func (c *Ctx) compare(name string, in map[string]string, impl string, modelOp, specOp string, args ...string) {
 	model := c.L.Call(modelOp, args...)
 	if model != impl {
 		c.R.Mismatch(name, hexIn(in), impl, model)
 	}
+	c.genCheck(modelOp, hexIn(in), impl, args...)
 	if specOp != "" {
 		spec := c.L.Call(specOp, args...)
 		if spec != impl {
